@@ -163,7 +163,20 @@ func c13(args []string) int {
 			lo = -1 << 50 // this history may run before the Unix epoch
 			now = -int64(r.Intn(5000))
 		}
+		// in a third of the histories the program installs another clock function half-way (TimestampFunc is a variable:
+		// the sampler reads the clock in force at each event)
+		baseTS := zerolog.TimestampFunc
+		replaceAt, shift := -1, int64(0)
+		if r.Chance(1, 3) {
+			replaceAt = 1 + r.Intn(150)
+			shift = []int64{int64(period), 3*int64(period) + 1, -int64(period), 1000, 1 << 41}[r.Intn(5)]
+		}
 		for j := 0; j < 200; j++ {
+			if j == replaceAt {
+				sh := shift
+				zerolog.TimestampFunc = func() time.Time { return time.Unix(0, clock+sh) }
+				out.Count("burst_histories_with_replaced_clock_function", 1)
+			}
 			switch r.Intn(5) {
 			case 0:
 				now -= int64(r.Intn(2000)) // back-step
@@ -181,14 +194,19 @@ func c13(args []string) int {
 				now = lo
 			}
 			clock = now
-			hist = append(hist, now)
-			got, want := s.Sample(zerolog.DebugLevel), ref.sample(now, zerolog.DebugLevel)
+			seen := now // what the clock function in force returns
+			if replaceAt >= 0 && j >= replaceAt {
+				seen = now + shift
+			}
+			hist = append(hist, seen)
+			got, want := s.Sample(zerolog.DebugLevel), ref.sample(seen, zerolog.DebugLevel)
 			if got != want {
 				out.Violate("burst-model", fmt.Sprintf("BurstSampler{Burst:%d Period:%d Next:%s} after %d calls returned %v, specified %v (clock tail %v)", burst, period, nname, j+1, got, want, hist[max0(len(hist)-8):]),
 					map[string]interface{}{"check": "c13", "burst": burst, "period": int64(period), "next": nname, "clock": hist})
 				break
 			}
 		}
+		zerolog.TimestampFunc = baseTS
 		out.Case(rng.HashStr(fmt.Sprint("r", i, burst, period, nv)), true)
 		out.Count("burst_random_histories", 1)
 	}
